@@ -58,7 +58,7 @@ func c03Decl(i int) *decl.Decl {
 const c03NDecl = 10
 
 var c03Units = [][]string{
-	{""}, {"-"}, {"--"}, {"---x"}, {"-u"}, {"--unk=1"}, {"-vu"}, {"w"}, {"z"}, {"-v"}, {"-s", "val"}, {"cmd"}, {"sub"}, {"7"}, {"--color", "on"}, {`"q"`},
+	{""}, {"-"}, {"--"}, {"---x"}, {"-u"}, {"--unk=1"}, {"-vu"}, {"w"}, {"z"}, {"-v"}, {"-s", "val"}, {"cmd"}, {"sub"}, {"7"}, {"--color", "on"}, {`"q"`}, {"--verb"},
 }
 
 func isSubsequence(sub, full []string) bool {
@@ -170,7 +170,7 @@ func init() {
 		switch {
 		case oi&1 != 0 && contains(argv, "--"):
 			class = "terminator"
-		case oi&4 != 0 && (contains(argv, "-u") || contains(argv, "--unk=1") || contains(argv, "-vu")):
+		case oi&4 != 0 && (contains(argv, "-u") || contains(argv, "--unk=1") || contains(argv, "-vu") || contains(argv, "--verb")):
 			class = "ignored-unknown"
 		case oi&2 != 0:
 			class = "pass-after-non-option"
@@ -207,7 +207,7 @@ func init() {
 		ShardDepth: 5,
 		Body:       body,
 		Rule: "10 declarations (positional layouts none/1/2/1+rest/int, required or optional or nested executable commands with own positionals) x all 8 subsets of {PassDoubleDash, PassAfterNonOption, IgnoreUnknown} " +
-			"x {struct tags | API+Execute | API+CommandHandler} x every sequence of <= 4 (quick) / <= 5 (thorough) units over 16 units ('', -, --, ---x, unknown short/long/cluster, repeated plain words, known flag, option+value, a bool-kinded Unmarshaler option + value, a token that is a quoted Go literal, command words, a number), plus beyond that bound [w, unit, unit' x {7,8,9,17}]; " +
+			"x {struct tags | API+Execute | API+CommandHandler} x every sequence of <= 4 (quick) / <= 5 (thorough) units over 17 units ('', -, --, ---x, unknown short/long/cluster, an unknown long name that is a proper prefix of a declared one, repeated plain words, known flag, option+value, a bool-kinded Unmarshaler option + value, a token that is a quoted Go literal, command words, a number), plus beyond that bound [w, unit, unit' x {7,8,9,17}]; " +
 			"oracle = CLM remaining arguments, plus (independent of the CLM) remaining arguments must be a subsequence of argv; also compared with what Execute / CommandHandler received and with the positional fields",
 		Assumptions:  []string{"only vectors that both the model and the parser accept are compared (rejections belong to C04/C07/C08)"},
 		RequiredHits: []string{"compared", "nonempty-rest", "class:terminator", "class:ignored-unknown", "class:pass-after-non-option", "exec-args-compared"},
